@@ -217,23 +217,31 @@ func unreleased(log []vkit.LockEvent) []string {
 	return out
 }
 
-func blockedInLocker() (int, string) {
-	buf := make([]byte, 1<<20)
+// blockedInLocker inspects all goroutine stacks: it returns how many request goroutines of this
+// package are blocked inside the locker, how many request goroutines are still alive at all, and a
+// sample stack.  A deadlock means every live request goroutine is blocked in the locker.
+func blockedInLocker() (blocked int, alive int, sample string) {
+	buf := make([]byte, 4<<20)
 	n := runtime.Stack(buf, true)
 	stacks := strings.Split(string(buf[:n]), "\n\n")
-	cnt := 0
-	var sample string
 	for _, s := range stacks {
+		if !strings.Contains(s, "harness/c15.run.func") && !strings.Contains(s, "harness/c15.TestC15Load.func") {
+			continue
+		}
+		if strings.Contains(s, "sync.(*WaitGroup).Wait") && !strings.Contains(s, "services/") {
+			continue // the collector goroutine, not a request
+		}
+		alive++
 		if (strings.Contains(s, "sync.(*Mutex).Lock") || strings.Contains(s, "sync.(*Mutex).lockSlow")) &&
-			(strings.Contains(s, "locker/syncmap.(*Service).Lock") || strings.Contains(s, "locker/syncmap.(*Service).PreLock") || strings.Contains(s, "vkit.(*RecordingLocker)")) {
-			cnt++
+			(strings.Contains(s, "locker/syncmap.(*Service).Lock") || strings.Contains(s, "locker/syncmap.(*Service).PreLock")) {
+			blocked++
 			if sample == "" {
 				sample = s
 			}
 		}
 	}
 
-	return cnt, sample
+	return blocked, alive, sample
 }
 
 type outcome struct {
@@ -339,14 +347,14 @@ func run(c *Case) (*outcome, *vkit.Violation, error) {
 			}
 		}
 		if !finished {
-			n1, s1 := blockedInLocker()
+			n1, a1, s1 := blockedInLocker()
 			time.Sleep(1 * time.Second)
-			n2, s2 := blockedInLocker()
-			if n1 >= 2 && n2 >= 2 && s1 == s2 {
-				return o, vkit.Violf("deadlock", "round %d did not complete within 21 s; %d request goroutines are blocked in the locker with unchanged stacks (requests %+v, steer %v)\n%s", ri, n2, round.Reqs, round.Steer, s1), nil
+			n2, a2, s2 := blockedInLocker()
+			if n1 >= 2 && n2 == n1 && a1 == n1 && a2 == n2 && s1 == s2 {
+				return o, vkit.Violf("deadlock", "round %d did not complete within 21 s; all %d unfinished requests are blocked in the locker with unchanged stacks (requests %+v, steer %v)\n%s", ri, n2, round.Reqs, round.Steer, s1), nil
 			}
 
-			return o, nil, fmt.Errorf("round %d did not complete within 21 s but no locker deadlock could be confirmed (%d/%d blocked)", ri, n1, n2)
+			return o, nil, fmt.Errorf("round %d did not complete within 21 s but no locker deadlock could be confirmed (%d of %d, then %d of %d unfinished requests blocked in the locker)", ri, n1, a1, n2, a2)
 		}
 		if un := unreleased(rl.Snapshot()); len(un) > 0 {
 			return o, vkit.Violf("lock-not-released", "round %d: key locks still held after every request returned: %v", ri, un), nil
@@ -496,10 +504,10 @@ func TestC15Load(t *testing.T) {
 		select {
 		case <-done:
 		case <-time.After(60 * time.Second):
-			n1, s1 := blockedInLocker()
+			n1, a1, s1 := blockedInLocker()
 			time.Sleep(time.Second)
-			n2, s2 := blockedInLocker()
-			if n1 >= 2 && n2 >= 2 && s1 == s2 {
+			n2, a2, s2 := blockedInLocker()
+			if n1 >= 2 && n2 == n1 && a1 == n1 && a2 == n2 && s1 == s2 {
 				vkit.Report(rt, "C15", "TestC15Load", map[string]any{"plans": plans}, vkit.Violf("deadlock.sustained-load", "sustained load did not complete within 61 s; %d goroutines blocked in the locker with unchanged stacks\n%s", n2, s1))
 			}
 			rt.Fatalf("INFRA: sustained load did not complete but no locker deadlock could be confirmed")
